@@ -32,9 +32,9 @@ for q in quals:
         from pyvc.solve import to_smt2
         for ob in obs:
             if pat in ob.name:
-                s = z3.Solver(); s.set('timeout', 30000); s.set('random_seed', 0); s.from_string(to_smt2(ob, cx.facts, {}))
+                s = z3.Solver(); s.set('timeout', 30000); s.set('random_seed', 0); s.set('auto_config', False); s.set('smt.mbqi', False); s.from_string(to_smt2(ob, cx.facts, {}))
                 print(ob.name, s.check())
-                if s.check() != z3.sat: continue
+                if s.check() == z3.unsat: continue
                 m = s.model()
                 def atoms(e, out):
                     if z3.is_app(e) and e.decl().kind() in (z3.Z3_OP_AND, z3.Z3_OP_OR, z3.Z3_OP_NOT, z3.Z3_OP_IMPLIES, z3.Z3_OP_ITE) or (z3.is_app(e) and z3.is_bool(e) and e.decl().kind()==z3.Z3_OP_EQ and z3.is_bool(e.arg(0))):
